@@ -227,6 +227,8 @@ def op_universe():
     for i in (0, 1, -1, -2, 5):
         ops.append(("insert", i, (("a", 6),)))
         ops.append(("insert", i, (("b", 6), ("a", 7))))
+    ops.append(("insert", 0, (("a", 6), ("a", 7))))       # one call carrying the same (possibly new) key twice
+    ops.append(("insert", 1, (("b", 8), ("a", 9), ("b", 9))))
     return ops
 
 
